@@ -194,7 +194,8 @@ class ExprMixin:
             return ClassRef(nm)
         if nm in self.ct.classes:
             return ClassRef(nm)
-        if nm in PY_BUILTINS or (self.spec and nm in SPEC_BUILTINS) or nm in REG.predicates or nm in REG.ufuns:
+        if nm in PY_BUILTINS or (self.spec and nm in SPEC_BUILTINS) or nm in REG.predicates or nm in REG.ufuns \
+                or f"builtins:{nm}" in REG.contracts:
             return BuiltinRef(nm)
         import builtins
         if isinstance(getattr(builtins, nm, None), type) and issubclass(getattr(builtins, nm), BaseException):
@@ -813,6 +814,14 @@ class ExprMixin:
             a, b = self.as_value(a), self.as_value(b)      # class / library objects as opaque constants
         if isinstance(a, Bag) or isinstance(b, Bag):
             raise EngineError("comparison of comprehension results")
+        def _opq_attr(x):
+            # an attribute of a value of unknown type used as a value (not called): an unknown value
+            if isinstance(x, MethodRef) and isinstance(x.recv_val, V) and isinstance(
+                    x.recv_val.t.inner if isinstance(x.recv_val.t, TOpt) else x.recv_val.t, TOpaque):
+                self.note_assumed(f"attribute .{x.name} of a value of unknown type (unknown value)")
+                return fresh(TOpaque("unk"), "attr")
+            return x
+        a, b = _opq_attr(a), _opq_attr(b)
         if isinstance(a, MethodRef) or isinstance(b, MethodRef):
             raise EngineError("comparison of a bound method")
         ta_, tb_ = (a.t.inner if isinstance(a.t, TOpt) else a.t), (b.t.inner if isinstance(b.t, TOpt) else b.t)
@@ -1103,6 +1112,21 @@ class ExprMixin:
                 idx = opt_val(idx)
             k = coerce(idx, t.k)
             has = vals.map_has(base, k)
+            if getattr(t, "default", False) and not self.spec and isinstance(node, ast.Subscript):
+                # defaultdict: the lookup of a missing key inserts (and yields) the empty value
+                if isinstance(t.v, TSet):
+                    dflt = vals.empty_set(t.v.elem)
+                elif isinstance(t.v, TSeq):
+                    dflt = vals.empty_seq(t.v.elem)
+                elif isinstance(t.v, TInt):
+                    dflt = mk_int(0)
+                else:
+                    raise EngineError(f"defaultdict with values of type {t.v}")
+                v = vals.ite(has, vals.map_get(base, k), coerce(dflt, t.v))
+                new = V(t, vals.map_put(base, k, v).zs)
+                st = self.assign_to(st, node.value, new, mut=True)
+                yield st, v
+                return
             self.raise_(st, "KeyError", z3.Not(has))
             st = st.assume(has) if not self.spec else st     # (spec mode: lookup is a total function)
             if not self.spec and not self.feasible(st):
